@@ -476,8 +476,10 @@ Print Assumptions C17_check_ok_sound.
    for Max <= 0; [Min] twice for a degenerate domain; else, on the ordered domain, major within tolerance
    of THE ascending list of ALL integer multiples of the spacing inside the domain widened by 1e-10 of its
    width (lin_level_list) at the LOWEST level of the window with at most Max such multiples, minor the
-   same one level below, and no ticks exactly when no level of the window fits.  lin_level_spec -
-   CountTicks(l) = length of that list = number of observed ticks, TicksAtLevel(l) within tolerance of it.
+   same one level below, and no ticks exactly when no level of the window fits.  lin_level_spec - with c
+   the length of that list: CountTicks(l) = c up to 10^6 ticks (within 2 + 1e-9 c of min(c, maxInt) beyond:
+   the count is formed in float64), and TicksAtLevel(l) has status 0, c ticks, each within tolerance of the
+   list whenever c <= 10^6 (status 3 = not called by the harness: only where c > 10^4).
    lin_nice_spec - the observed new ends are finite and within tolerance of x, y with: x <= smn, smx <= y
    (never shrinks; [smn, smx] the ordered domain, a degenerate one widened by 1/2), at THE lowest level
    whose rounded-out count is at most Max (lin_nice_level) each end moved by less than one spacing onto a
@@ -568,8 +570,12 @@ Theorem C17_check_meaning_scales :
   (forall (base eb : Z) (mn mx : Q) (l : Z) (L : list Q), lin_level_list base eb mn mx l L <->
    (StronglySorted Qlt L /\ forall v, In v L <-> exists k : Z, v = inject_Z k * lin_spacing base eb l /\ in_range mn mx v)%Q) /\
   (forall (tolv : Q -> Q) (base eb : Z) (mn mx : Q) (lv : levobs), lin_level_spec tolv base eb mn mx lv <->
-   (lv_st lv = 0%Z /\ lv_count lv = Z.of_nat (length (lv_ticks lv)) /\
-    exists L, lin_level_list base eb mn mx (lv_level lv) L /\ lv_count lv = Z.of_nat (length L) /\ obs_close tolv L (lv_ticks lv))%Q) /\
+   (exists L, lin_level_list base eb mn mx (lv_level lv) L /\
+    let c := Z.of_nat (length L) in
+    ((c <= 1000000)%Z -> lv_count lv = c) /\
+    ((1000000 < c)%Z -> (Z.abs (lv_count lv - Z.min c MAXINT) <= 2 + c / 1000000000)%Z) /\
+    ((lv_st lv = 0%Z /\ (c <= 1000000)%Z /\ obs_close tolv L (lv_ticks lv) /\ lv_count lv = Z.of_nat (length (lv_ticks lv)))
+    \/ (lv_st lv = 3%Z /\ (10000 < c)%Z /\ lv_ticks lv = [])))%Q) /\
   (forall (tolv : Q -> Q) (base eb : Z) (o : tickopts) (mn mx : Q) (st : Z) (a b : xreal), lin_nice_spec tolv base eb o mn mx st a b <->
    (st = 0%Z /\ exists ao bo x y, a = XFin ao /\ b = XFin bo /\ Qabs (ao - x) <= tolv x /\ Qabs (bo - y) <= tolv y /\
     let smn := fst (lin_start mn mx) in let smx := snd (lin_start mn mx) in
